@@ -169,6 +169,18 @@ func New(prop string, header string, perShard int) *Ctx {
 	return c
 }
 
+// Begin records the closed input that is about to be run on the real code in
+// <out>/<prop>.current.json. A panic in a goroutine started by the code under
+// test cannot be recovered and kills the harness; the driver then reports this
+// input as the failing input of the crash.
+func (c *Ctx) Begin(what, site string, input interface{}) {
+	b, err := json.Marshal(map[string]interface{}{"what": what, "site": site, "input": input})
+	if err != nil {
+		return
+	}
+	_ = os.WriteFile(filepath.Join(c.OutDir, c.Prop+".current.json"), b, 0o644)
+}
+
 func (c *Ctx) Thorough() bool { return c.Tier == "thorough" }
 
 // Scale returns q in the quick tier and t in the thorough tier.
